@@ -129,6 +129,11 @@ type Attr struct {
 	Meta    map[string][]string `json:"meta,omitempty"`
 	Tag     int                 `json:"tag,omitempty"`  // rpc:tag
 	View    string              `json:"view,omitempty"` // view used to render a nested result type
+	// Inherit says the attribute comes from the enclosing user type's base: "extend" (merged in by Extend(base),
+	// not spelled in the DSL) or "reference" (spelled without a type: type, validations, default and description
+	// come from the attribute of the same name of Reference(base)). InhReq: required because the base requires it.
+	Inherit string `json:"inherit,omitempty"`
+	InhReq  bool   `json:"inherited_required,omitempty"`
 	// security roles
 	Sec string `json:"sec,omitempty"` // username|password|token|apikey:<scheme>|accesstoken
 }
